@@ -920,6 +920,20 @@ def machine_check(pid, tier, seed, replay, props, rule, with_dump=False, extra=N
     mix = machine_mix(seed * 13 + int(pid[1:]), tier, with_dump=with_dump)
     if extra:
         mix += extra(seed, tier)
+    if pid in ("C19", "C08"):
+        # the same call spaces once more with every library call single-stepped (trap flag, empty SIGTRAP handler on the interrupted
+        # stack): a signal frame is built below the red zone at every instruction boundary, so a callee that keeps saved registers
+        # or scratch data below rsp-128, or reloads them from a frame it has already dropped, is exposed deterministically
+        smix = machine_mix(seed * 17 + 5 + int(pid[1:]), tier, small=True)
+        for exe, spec, jobs in smix:
+            if spec == "TraceJob":
+                continue
+            sj = []
+            for j in jobs:
+                take = j["behaviours"][:(2 if tier == "quick" else 12)]
+                if take:
+                    sj.append(dict(j, name="step-" + j["name"], behaviours=[["stepmode 1"] + take[0]] + take[1:], prelude="stepmode 1\n"))
+            mix.append((exe, spec, sj))
     jobs, outs, nb, ne = run_mix(chk, mix, props)
     eps = entry_points_called(outs)
     chk.cov["evaluations"] = ne
